@@ -20,6 +20,7 @@ pub fn quiet_panics() {
     use std::sync::Once;
     static ONCE: Once = Once::new();
     ONCE.call_once(|| {
+        observers::install();
         let default = std::panic::take_hook();
         std::panic::set_hook(Box::new(move |info| {
             if std::env::var("TRV_SHOW_PANICS").is_ok() {
@@ -83,4 +84,51 @@ pub fn load_replay(path: &str) -> serde_json::Value {
 pub fn finish(rep: Report) -> ! {
     let code = rep.finish();
     std::process::exit(code)
+}
+
+/// The repository's crates are built with their `tracing` and `metrics` features on. With no
+/// subscriber the `tracing` macros do not even evaluate their field expressions, so the harness
+/// installs one that is interested in everything and throws every event away; likewise a
+/// recorder that hands out no-op metric handles. What they would *show* is not examined - the
+/// point is that the code inside those feature blocks really runs.
+pub mod observers {
+    use std::sync::atomic::{AtomicU64, Ordering};
+
+    struct AllEvents(AtomicU64);
+
+    impl tracing::Subscriber for AllEvents {
+        fn enabled(&self, _m: &tracing::Metadata<'_>) -> bool {
+            true
+        }
+        fn new_span(&self, _a: &tracing::span::Attributes<'_>) -> tracing::span::Id {
+            tracing::span::Id::from_u64(self.0.fetch_add(1, Ordering::Relaxed) + 1)
+        }
+        fn record(&self, _s: &tracing::span::Id, _v: &tracing::span::Record<'_>) {}
+        fn record_follows_from(&self, _s: &tracing::span::Id, _f: &tracing::span::Id) {}
+        fn event(&self, _e: &tracing::Event<'_>) {}
+        fn enter(&self, _s: &tracing::span::Id) {}
+        fn exit(&self, _s: &tracing::span::Id) {}
+    }
+
+    struct NoopRecorder;
+
+    impl metrics::Recorder for NoopRecorder {
+        fn describe_counter(&self, _k: metrics::KeyName, _u: Option<metrics::Unit>, _d: metrics::SharedString) {}
+        fn describe_gauge(&self, _k: metrics::KeyName, _u: Option<metrics::Unit>, _d: metrics::SharedString) {}
+        fn describe_histogram(&self, _k: metrics::KeyName, _u: Option<metrics::Unit>, _d: metrics::SharedString) {}
+        fn register_counter(&self, _k: &metrics::Key, _m: &metrics::Metadata<'_>) -> metrics::Counter {
+            metrics::Counter::noop()
+        }
+        fn register_gauge(&self, _k: &metrics::Key, _m: &metrics::Metadata<'_>) -> metrics::Gauge {
+            metrics::Gauge::noop()
+        }
+        fn register_histogram(&self, _k: &metrics::Key, _m: &metrics::Metadata<'_>) -> metrics::Histogram {
+            metrics::Histogram::noop()
+        }
+    }
+
+    pub fn install() {
+        let _ = tracing::subscriber::set_global_default(AllEvents(AtomicU64::new(0)));
+        let _ = metrics::set_global_recorder(NoopRecorder);
+    }
 }
